@@ -126,7 +126,7 @@ func checkC11(p *Prog, r *Result, tier string) {
 	r.Rule("C11.R6", "the schema control succeeds only through both inclusion loops: no path returns a nil error without having reached the directory-versus-index loop and the index-versus-directory loop (whatever the configuration predicates say)", 2)
 	r.Rule("C11.R7", "only membership divergence is repairable: the index-level control (ordering and size of every field index) never reports an error of the ErrIndexCorrupted class, because the loader publishes a schema under that class and Repair can only add and drop entries", 1)
 	r.Rule("C11.R3", "a corrupted schema is still loaded: under errors.Is(err, ErrIndexCorrupted) the loader publishes the schema and returns it with the error; under any other error nothing is published", 2)
-	r.Rule("C11.R4", "Repair never writes, truncates or removes an object file or the tree; it indexes unindexed files only after a successful read of the file (or, with caching on, of its cached copy) and through the accepting (constraint-checking) insertion; it un-indexes entries absent from disk; its successful return is preceded by the directory listing", 5)
+	r.Rule("C11.R4", "Repair never truncates or removes an object file or the tree and writes object files only by flushing the pending (accepted, not yet written) objects through the pending store before it lists the directory, which it always does when asynchronous writes are on; it indexes unindexed files only after a successful read of the file (or, with caching on, of its cached copy) and through the accepting (constraint-checking) insertion; it un-indexes entries absent from disk; its successful return is preceded by the directory listing", 5)
 	r.Rule("C11.R5", "Control() iterates over the whole schema table and calls the schema control in every iteration", 1)
 	r.NotDecided = []string{"'if and only if' at value level (that equal sets are never reported as different)", "search results after Repair", "that the uuid-shaped file filter matches exactly the object files (C18/C19)"}
 	c := computeClosures(p)
@@ -388,19 +388,52 @@ func checkC11(p *Prog, r *Result, tier string) {
 	// R4
 	if rep := p.FuncByName("DB.Repair"); rep != nil {
 		sawAccept, sawUnindex := false, false
-		exploreAll(p, c, jobsFor([]*ssa.Function{rep}, []Valuation{{Cache: triNo, Async: triNo}, {Cache: triYes, Async: triYes}}), effs(EOkObjRead, EFsReadDir, EOkAccept, ECallGetCache, EJsonDec), r, func(j exploreJob) Listener {
+		acquire := p.FuncByName("DB.schema")
+		exploreAll(p, c, jobsFor([]*ssa.Function{rep}, []Valuation{{Cache: triNo, Async: triNo}, {Cache: triYes, Async: triYes}}), effs(EOkObjRead, EFsReadDir, EOkAccept, ECallGetCache, EJsonDec, ECallFlushPend), r, func(j exploreJob) Listener {
 			return &effListener{p: p, r: r, root: j.root, val: j.val,
 				onEvent: func(l *effListener, x *Explorer, st *State, ev *Event) {
 					if ev.Kind != EvEffect {
 						return
 					}
 					fn := FuncName(st.top().fn)
+					// the one legitimate object-file write of Repair: flushing the pending (accepted, not yet written)
+					// objects through the pending store, before the directory is listed
+					inFlush := false
+					for _, fr := range st.frames {
+						if rn := named(recvType(fr.fn)); rn != nil && (rn == a.ObjectMap || rn == a.ObjectStore) {
+							inFlush = true
+						}
+					}
+					// the directory listing that counts is Repair's own, not the one of the schema control when the
+					// schema is lazily loaded by the schema acquisition
+					inAcquire := false
+					for _, fr := range st.frames {
+						if fr.fn == acquire {
+							inAcquire = true
+						}
+					}
+					if ev.Eff == EFsReadDir && !inAcquire {
+						st.User |= 8
+					}
+					flushing := inFlush && st.User&8 == 0
 					switch ev.Eff {
+					case EFsReadDir:
+						if l.val.Async == triYes && !inAcquire {
+							if st.must.Has(ECallFlushPend) {
+								l.ok("C11.R4", FuncName(rep), "pending writes flushed before the directory is listed", l.p.Pos(ev.Instr.Pos()))
+							} else {
+								l.bad("C11.R4", FuncName(rep), "pending writes flushed before the directory is listed", "with asynchronous writes on, Repair lists the directory without having flushed the pending writes: an accepted object that has no file yet is taken for a deleted one and dropped from the index", l.p.Pos(ev.Instr.Pos()), x, st, ev.Instr)
+							}
+						}
 					case EFsRename:
-						if ev.Tags&TSchemaPath == 0 {
+						if ev.Tags&TSchemaPath == 0 && !flushing {
 							l.bad("C11.R4", fn, "no object file mutation: "+ev.Eff.String(), "Repair renames a file that is not the schema file", l.p.Pos(ev.Instr.Pos()), x, st, ev.Instr)
 						}
-					case EFsWObj, EFsRmObj, EFsRmTree, EFsRmOther:
+					case EFsWObj:
+						if !flushing {
+							l.bad("C11.R4", fn, "no object file mutation: "+ev.Eff.String(), "Repair reaches a mutation of object files", l.p.Pos(ev.Instr.Pos()), x, st, ev.Instr)
+						}
+					case EFsRmObj, EFsRmTree, EFsRmOther:
 						l.bad("C11.R4", fn, "no object file mutation: "+ev.Eff.String(), "Repair reaches a mutation of object files", l.p.Pos(ev.Instr.Pos()), x, st, ev.Instr)
 					case EIdxWLive:
 						if st.onStackRecv(a.ObjIndex, func(f *ssa.Function) bool { return c.Of(f).Has(EErrUnique) }) {
@@ -434,7 +467,7 @@ func checkC11(p *Prog, r *Result, tier string) {
 						l.bad("C11.R4", FuncName(rep), "success only after listing the directory", "Repair can return success without having listed the directory", l.p.Pos(ret.Pos()), x, st, ret)
 					}
 				}}
-		}, nil)
+		}, func(x *Explorer) { x.AssumeStorePresent = true })
 		if sawAccept {
 			r.Report("C11.R4", FuncName(rep), "indexes unindexed files", Discharged, "", "", nil, true)
 		} else {
